@@ -121,6 +121,8 @@ def run(tier, rep):
                         njudged += 1
                         corp.add_message(raw[3:-3], msg, m["labelmsm_"], lbl=True, ident="slice", kind=f"v{v}")
     dv = corp.judge()
+    for key, a, b in corp.conflicts:
+        rep.reject("ValidateOffDecodesSame:BandLabelInconsistent", {"engine": "framer+decode", "gnss": key[1], "sigid": key[2]}, {"labels": [a, b], "key": list(key)})
     for r in corp.recs:
         x = dv[r["rid"]]
         if x[0] != "accept":
